@@ -51,6 +51,8 @@ class Snapshotter:
         self.active = False
         self.kill_at: int | None = None  # really die at that boundary
         self.boundary_keys: dict[int, str] = {}
+        self.dir_counter = 0
+        self.errors: list[str] = []
 
     # ---- helpers -----------------------------------------------------------
     def under_root(self, path) -> bool:
@@ -67,13 +69,33 @@ class Snapshotter:
         self.versions.setdefault(rel, set()).add(content)
 
     def snapshot(self, label: str) -> None:
-        """Copy the tree if its content is new."""
+        """Copy the tree if its content is new.  A failure of the instrument
+        itself is remembered (the code under test might swallow the
+        exception) and re-raised by ``raise_if_failed``."""
+        try:
+            self._snapshot(label)
+        except Exception as exc:  # pylint: disable=broad-except
+            self.errors.append(f"{type(exc).__name__}: {exc} at boundary "
+                               f"{self.boundary} ({label})")
+            raise
+
+    def raise_if_failed(self) -> None:
+        if self.errors:
+            raise RuntimeError("snapshotter failed: " + "; ".join(
+                self.errors[:3]))
+
+    def _snapshot(self, label: str) -> None:
         self.boundary += 1
         if self.kill_at is not None and self.boundary == self.kill_at:
             os.kill(os.getpid(), 9)
         files = {}
         for d, _, names in os.walk(self.root):
             for n in names:
+                if n.startswith("update_"):
+                    # in-flight temp file of a metadata update: no reader and
+                    # no oracle clause ever looks at it, so states that differ
+                    # only there are the same crash state
+                    continue
                 full = os.path.join(d, n)
                 try:
                     with self.saved["open"](full, "rb") as f:
@@ -93,7 +115,8 @@ class Snapshotter:
         if key in self.states:
             self.states[key]["last_boundary"] = self.boundary
             return
-        dst = self.snap_dir / f"{len(self.order):05d}"
+        self.dir_counter += 1
+        dst = self.snap_dir / f"{self.dir_counter:06d}"
         os.makedirs(dst)
         for d in dirs:
             os.makedirs(dst / d, exist_ok=True)
